@@ -51,6 +51,8 @@ class ReadInterp(Interp):
         self.reads = []        # ordered (kind, detail, destination symbol)
         self.ncond = 0
         self.stores = {}       # symbol path -> list of destination paths
+        self.cmp_atoms = {}    # fresh condition atom -> (op, lhs poly, rhs poly)
+        self.free_syms = set() # symbols standing for loop-exit values that a later guard may pin down
 
     def fresh(self, prefix="n"):
         self.nsym += 1
@@ -176,6 +178,7 @@ class ReadInterp(Interp):
         if a is None or b is None:
             v, self.consumed, fr.env, self.known, self.alias, rd = a or b
             self.reads.extend(rd)
+            self.learn(fr, ind, then_survived=(a is not None))
             return v
         v1, c1, env1, k1, al1, rd1 = a
         v2, c2, env2, k2, al2, rd2 = b
@@ -203,9 +206,59 @@ class ReadInterp(Interp):
         except Unsupported:
             return Opaque("mixed")
 
+    def learn(self, fr, ind, then_survived):
+        """The surviving branch of `if a != b { diverge }` knows a == b: pin a free loop-exit symbol."""
+        atoms = ind.atoms()
+        if len(atoms) != 1 or len(ind.m) != 1:
+            return
+        (atom,) = atoms
+        info = self.cmp_atoms.get(atom)
+        if not info:
+            return
+        op, a, b = info
+        equal_known = (op == "Ne" and not then_survived) or (op == "Eq" and then_survived)
+        if not equal_known:
+            return
+        for x, y in ((a, b), (b, a)):
+            sym = _single_symbol(x)
+            if sym is not None and sym in self.free_syms:
+                self.subst_symbol(fr, sym, y)
+                self.free_syms.discard(sym)
+                return
+
+    def subst_symbol(self, fr, sym, value):
+        def sub(p):
+            if not isinstance(p, Poly):
+                return p
+            out = Poly()
+            for (atoms, g), c in p.m.items():
+                if g is not None and g[0] == "val" and g[1] == sym:
+                    out = out + Poly({(atoms, None): c}) * value
+                else:
+                    out = out + Poly({(atoms, g): c})
+            return out
+        self.consumed = sub(self.consumed)
+        for vid, v in list(fr.env.items()):
+            fr.env[vid] = sub(v)
+
     # -- conditions
     def cond(self, fr, e):
         e = unblock(e)
+        if e.get("k") == "Binary" and e["op"] in ("Ne", "Eq"):
+            try:
+                a = as_poly(self.eval(fr, e["l"]), "cmp")
+                b = as_poly(self.eval(fr, e["r"]), "cmp")
+            except Unsupported:
+                a = b = None
+            if a is not None:
+                d = a - b
+                if d.is_zero():
+                    return Poly.const(1 if e["op"] == "Eq" else 0)
+                if not d.is_const():
+                    self.ncond += 1
+                    atom = ("cond", ("$c%d" % self.ncond,))
+                    self.cmp_atoms[atom] = (e["op"], a, b)
+                    return Poly.atom(atom)
         if e.get("k") == "Call" and e["fn"].get("name") in ("is_some", "is_none") and len(e["args"]) == 1:
             v = self.eval(fr, e["args"][0])
             if isinstance(v, PathVal):
@@ -436,12 +489,22 @@ class ReadInterp(Interp):
         bv = strip(big)
         while bv.get("k") == "Cast":
             bv = strip(bv["e"])
-        if sv.get("k") == "Var" and sv["var"]["id"] in fr.env and lit_value(small) is None:
-            fr.env[sv["var"]["id"]] = as_poly(self.eval(fr, big), "loop bound")
-            rec["exit_var"] = sv["var"]["name"]
-        elif bv.get("k") == "Var" and bv["var"]["id"] in fr.env:
-            fr.env[bv["var"]["id"]] = as_poly(self.eval(fr, small), "loop bound")
+        if lit_value(small) == 0 and bv.get("k") == "Var" and bv["var"]["id"] in fr.env:
+            # `while x > 0` on an unsigned counter: the loop leaves with x == 0
+            fr.env[bv["var"]["id"]] = Poly()
             rec["exit_var"] = bv["var"]["name"]
+        elif sv.get("k") == "Var" and sv["var"]["id"] in fr.env:
+            # `while declared > accounted`: the loop leaves with accounted >= declared; whether they are equal is
+            # what a following `declared != accounted -> error` test establishes (learned in fork())
+            fs = self.fresh("x")
+            self.free_syms.add(fs)
+            start = as_poly(env0.get(sv["var"]["id"], Poly()), "loop start")
+            fr.env[sv["var"]["id"]] = g_val(fs)
+            self.consumed = c0 + g_val(fs) - start
+            rec["exit_var"] = sv["var"]["name"]
+            rec["exit_sym"] = fs
+        else:
+            raise Unsupported("loop bound %s" % pp(c)[:80])
         # anything else assigned in the loop is unknown afterwards
         assigned = set()
         for n in walk_all(e["body"]):
@@ -553,6 +616,14 @@ class ReadInterp(Interp):
             del self.reads[r0:]
             self.reads.append(("call", res, sub, _symname(v)))
             return v
+        if local and not callee.get("is_async") and callee.get("thir") and name not in _WRAPPERS and \
+                name not in ("from_u8", "is_invalid", "value", "new_with") and self.depth < 10:
+            vals = [self.eval_quiet(fr, a) for a in args]
+            if any(isinstance(v, Poly) and not v.is_const() for v in vals):
+                try:
+                    return self.run_fn(res, vals)
+                except Unsupported:
+                    pass
         # wrappers around one value (Arc::new, Bytes::from, TopicName::try_from, expect, map_err ...)
         if name in _WRAPPERS and args:
             v = self.eval_quiet(fr, args[0])
